@@ -327,7 +327,13 @@ func (f *Frame) loopHead(li *loopInfo, pc string, st *State, order []*ssa.BasicB
 	}
 	for i, inv := range li.spec.Invariants {
 		env := f.env(st)
-		t := env.evalBool(inv.E)
+		t, msg := tryEvalBool(env, inv.E)
+		if msg != "" {
+			// the invariant no longer talks about this code (e.g. a local it names is gone): it fails as an
+			// obligation of its own and the loop is verified with the remaining invariants
+			vc.oblige("inv-entry", fmt.Sprintf("%s#inv:%s.%d/stale", f.obFn(), tag, i+1), pc, vc.freshConst("stale", "Bool"), f.pos(loopPos(li)), "loop invariant cannot be evaluated on this code ("+msg+"): "+inv.Src)
+			continue
+		}
 		vc.oblige("inv-entry", fmt.Sprintf("%s#inv:%s.%d/entry", f.obFn(), tag, i+1), pc, t, f.pos(loopPos(li)), inv.Src)
 	}
 	// 2b. automatic frame invariant: what the function's modifies clause protects stays protected
@@ -410,7 +416,9 @@ func (f *Frame) loopHead(li *loopInfo, pc string, st *State, order []*ssa.BasicB
 	// 4. assume invariants
 	env := f.env(h)
 	for _, inv := range li.spec.Invariants {
-		vc.assume(pc, env.evalBool(inv.E))
+		if t, msg := tryEvalBool(env, inv.E); msg == "" {
+			vc.assume(pc, t)
+		}
 	}
 	for _, hnt := range li.spec.Hints {
 		f.applyHint(hnt, pc, h, fmt.Sprintf("%s.hint", tag))
@@ -433,7 +441,10 @@ func (f *Frame) backEdge(li *loopInfo, cond string, st *State, from *ssa.BasicBl
 	}
 	f.prevState = nil
 	for i, inv := range li.spec.Invariants {
-		t := env.evalBool(inv.E)
+		t, msg := tryEvalBool(env, inv.E)
+		if msg != "" {
+			continue
+		}
 		vc.oblige("inv-preserve", fmt.Sprintf("%s#inv:%s.%d/preserve", f.obFn(), tag, i+1), cond, t, f.pos(loopPos(li)), inv.Src)
 	}
 	for _, k := range li.framed {
@@ -453,6 +464,21 @@ func (f *Frame) backEdge(li *loopInfo, cond string, st *State, from *ssa.BasicBl
 	} else if f.top && !f.dry {
 		vc.notes = append(vc.notes, fmt.Sprintf("termination of loop#%d of %s not proved (no decreases clause)", li.index, shortFn(f.fn)))
 	}
+}
+
+// tryEvalBool evaluates a spec expression; a spec-level evaluation error (unknown name, ...) is returned
+// as a message instead of aborting the translation of the whole function.
+func tryEvalBool(env *Env, e Expr) (t string, msg string) {
+	defer func() {
+		if r := recover(); r != nil {
+			if u, ok := r.(unsupported); ok && strings.HasPrefix(u.why, "spec:") {
+				msg = u.why
+				return
+			}
+			panic(r)
+		}
+	}()
+	return env.evalBool(e), ""
 }
 
 func (f *Frame) conHints(anchor string) []Hint {
